@@ -53,21 +53,25 @@ class Proxy(object):
         locked = owner is me if me is not None else owner == 'main'
         if not locked:
             rec['bad'].append(('unlocked', name, who, site[1]))
-        if self.inside is not None and self.inside[0] != who:
+        # (who is inside the driver is kept per frontend, not per driver
+        # object: device.connect() of a re-open runs the new driver's
+        # initialisation on the same hardware)
+        inside = rec.get('inside_proxy')
+        if inside is not None and inside[0] != who:
             # two threads inside the driver: when one of them came without
             # the lock that call site is the culprit (reported above);
             # both holding the lock would mean the lock itself is broken
-            if locked and self.inside[1]:
+            if locked and inside[1]:
                 rec['bad'].append(('overlap', name, who, site[1]))
         if self.closed:
             rec['bad'].append(('use-after-close', name, who, site[1]))
         rec['calls'] += 1
-        prev, self.inside = self.inside, (who, locked)
+        prev, rec['inside_proxy'] = inside, (who, locked)
         try:
             if sched.S is not None:
                 sched.S.point('driver', name)
         finally:
-            self.inside = prev
+            rec['inside_proxy'] = prev
 
     # -- driver interface ---------------------------------------------------
     def close(self):
@@ -340,7 +344,14 @@ def execute(cfg, chooser, want_trace=False):
     rec = dict(bad=[], sites=set(), calls=0, tag=True, reader=True, clf=None,
                results={})
     real_connect = nfc.clf.device.connect
-    nfc.clf.device.connect = lambda path: Proxy(rec)
+
+    def proxy_connect(path):
+        # device.connect() opens the transport and runs the driver's
+        # initialisation commands: a driver call like any other
+        p = Proxy(rec)
+        p._enter('connect')
+        return p
+    nfc.clf.device.connect = proxy_connect
     try:
         clf = nfc.clf.ContactlessFrontend()
         rec['clf'] = clf
